@@ -535,6 +535,20 @@ func c04PublishCopies(c *Check, P string, r *GCRoles) {
 				}
 			}
 			c.Report(okAll, P+".O5", "PUBLISH-WHOLE-BATCH", Pub, cl.Pos(), fmt.Sprintf("fan-out call#%d", i), "Publish reports success only after every message of the batch went through the fan-out (no successful return from inside the per-message loop)")
+			// … and not before the loop either: success is reported only on the loop's exhausted edge
+			var done []Edge
+			for _, t := range Tests(Pub) {
+				for _, inc := range incs {
+					if t.Op == token.LSS && t.X == inc.(ssa.Value) {
+						done = append(done, t.False)
+					}
+				}
+			}
+			for j, ret := range Returns(Pub) {
+				if RetNil(ret, 0) {
+					c.Report(len(done) > 0 && GuardedBy(Pub, ret, done), P+".O5", "PUBLISH-SUCCESS-ONLY-AFTER-THE-LOOP", Pub, ret.Pos(), fmt.Sprintf("Publish return#%d", j), "every successful return of Publish lies behind the exhausted edge of the per-message loop (no shortcut for 'nothing to do' cases: they would bypass persisting, locking or the fan-out)")
+				}
+			}
 		}
 	}
 	nper := 0
